@@ -52,8 +52,11 @@ func genC16(r *hysim.Rand, tier string) *hysim.Script {
 			sc.Ops = append(sc.Ops, hysim.Op{K: "hold", A: []int64{int64(r.Range(1, 10))}})
 		case p < 66:
 			sc.Ops = append(sc.Ops, hysim.Op{K: "srvrestart", A: []int64{r.Pick64(0, 0, 500, 12000)}})
-		case p < 74:
+		case p < 71:
 			sc.Ops = append(sc.Ops, hysim.Op{K: "blackhole", A: []int64{r.Pick64(1000, 6000, 12000)}})
+		case p < 74:
+			// the client's own transport socket starts failing for good (interface gone)
+			sc.Ops = append(sc.Ops, hysim.Op{K: "sockfail", A: []int64{r.Pick64(0, 100, 3000)}})
 		case p < 80:
 			sc.Ops = append(sc.Ops, hysim.Op{K: "kick"})
 		case p < 85:
@@ -250,6 +253,22 @@ func execC16(x *hysim.Run) {
 			time.Sleep(time.Duration(clamp(op.Arg(0), 1, 60000)) * time.Millisecond)
 			w.fab.Blackhole(w.srvAddr.String(), false)
 			cw.disturbed = x.Seq()
+		case "sockfail":
+			var eps []*simnet.Endpoint
+			for _, f := range cw.factories {
+				eps = append(eps, f.open()...)
+			}
+			if len(eps) > 0 {
+				x.Fault("kill.client-socket-error")
+				cw.disturbed = x.Seq()
+				for _, ep := range eps {
+					ep.ReadErr = func() error { return errors.New("read udp: network is down") }
+					// (a reader parked in the socket notices with the next datagram)
+					w.fab.Inject(w.srvAddr, ep.LocalAddr().String(), []byte{0})
+				}
+				time.Sleep(time.Duration(clamp(op.Arg(0), 0, 60000)) * time.Millisecond)
+				cw.disturbed = x.Seq()
+			}
 		case "kick":
 			cw.kick = true
 		case "cfgfail":
@@ -290,6 +309,30 @@ func execC16(x *hysim.Run) {
 	time.Sleep(time.Second)
 	synctest.Wait()
 	cw.checkSockets("at the end of the script")
+	if !cw.closed && cw.srvUp && !x.Violated() {
+		// bounded liveness once faults have stopped: whatever took the connection away, a failing
+		// call reports it as closed and the next call rebuilds it - so one of a few calls succeeds
+		w.fab.Quiet = true
+		cw.cfgFail, cw.connFail = 0, 0
+		var errs []string
+		ok := false
+		for k := 0; k < 4 && !ok && !x.Violated(); k++ {
+			c := cw.call("tcp", 900000+k)
+			var sl *quic.StreamLimitReachedError
+			if c.err == nil || errors.As(c.err, &sl) {
+				ok = true // (a stream-limit error is the recoverable kind: the connection is alive)
+			} else {
+				errs = append(errs, fmt.Sprintf("%T: %v", c.err, c.err))
+			}
+		}
+		if !ok && !x.Violated() {
+			x.Violate("not-recovered-after-loss", "server up, network clean, no fault pending: 4 calls in a row failed (%d connections so far, configFunc evaluated %d times): %v", len(cw.connected), cw.cfgCalls, errs)
+		} else if len(errs) > 0 {
+			x.Probe("recovered-after-a-failing-call")
+		}
+		synctest.Wait()
+		cw.checkSockets("after the recovery calls")
+	}
 	if !cw.closed {
 		_ = rc.Close()
 		cw.closed = true
